@@ -48,7 +48,7 @@ fn judge(rows: u32, top: u16, bottom: u16, tfa: u16, vsa: u16, bfa: u16) -> Resu
 
 pub fn check(c: &ScrollCase, info: &mut CaseInfo) -> Result<(), String> {
     let transport = match c.spi_buf {
-        Some(n) if crate::gen::supported(c.model, Kind::Serial) => Transport::Spi { buf: (n as u16).max((c.model.bits() as u16 + 7) / 8) },
+        Some(n) if crate::gen::supported(c.model, Kind::Serial) => Transport::Spi { buf: (n as u32).max((c.model.bits() + 7) / 8) },
         _ => Transport::Rec8,
     };
     let mut cfg = Config::full(c.model, transport);
